@@ -685,6 +685,17 @@ func TestReplay(t *testing.T) {
 		t.Fatal(err)
 	}
 	rec := h.Begin("C12", "replay")
+	if h.ReplayPart(p) == "opening" {
+		var oc OCase
+		if err := h.LoadReplay(p, &oc); err != nil {
+			t.Fatal(err)
+		}
+		rec.MarkCurrent(oc)
+		o := runOCase(oc)
+		fmt.Println("classes:", o.Classes)
+		rec.Report(t, oc, o)
+		return
+	}
 	rec.MarkCurrent(c)
 	o := runCase(c)
 	fmt.Println("classes:", o.Classes)
